@@ -249,11 +249,17 @@ def run_driver(ctx, binary, args, timeout=900, env_extra=None, stdin_path=None, 
     env["VERIF_REPO"] = REPO
     if env_extra:
         env.update(env_extra)
-    logp = os.path.join(ctx.tmp, "driver-%d.log" % int(time.time() * 1000))
-    with open(logp, "w") as fh:
-        stdin = open(stdin_path) if stdin_path else subprocess.DEVNULL
-        p = subprocess.run(["timeout", "-k", "10", str(timeout), binary] + args, stdout=fh, stderr=subprocess.STDOUT,
-                           env=env, stdin=stdin, cwd=ctx.tmp)
+    for attempt in range(3):
+        logp = os.path.join(ctx.tmp, "driver-%d.log" % int(time.time() * 1000))
+        with open(logp, "w") as fh:
+            stdin = open(stdin_path) if stdin_path else subprocess.DEVNULL
+            p = subprocess.run(["timeout", "-k", "10", str(timeout), binary] + args, stdout=fh, stderr=subprocess.STDOUT,
+                               env=env, stdin=stdin, cwd=ctx.tmp)
+        # a listener port picked a moment ago may have been taken by another process: start again, do not judge
+        if p.returncode not in ok_codes and "address already in use" in open(logp, errors="replace").read():
+            log("[driver] port collision, restarting %s" % os.path.basename(binary))
+            continue
+        break
     if p.returncode == 124 or p.returncode == 137:
         raise Inconclusive("driver timeout: %s %s (log %s)\n%s" % (binary, args, logp, tail(logp)))
     if p.returncode not in ok_codes:
